@@ -545,7 +545,7 @@ func (r *FnRun) evalIdx(x SIdx, env *specEnv) Val {
 				i = BVLit(n, 64)
 			}
 		}
-		p := PtrVal{Kind: pkElem, Base: b.Base, Idx: r.idxAdd(b.Off, i), Root: "[]" + typeKey(b.Elem), Elem: b.Elem}
+		p := PtrVal{Kind: pkElem, Base: b.Base, Idx: r.pos(b.Off, i), Root: "[]" + typeKey(b.Elem), Elem: b.Elem}
 		return r.specLoad(env.st, p)
 	case Term:
 		if b.Sort.IsArr() {
@@ -599,6 +599,21 @@ func (r *FnRun) evalQuant(x SQuant, env *specEnv) Val {
 	q := "forall"
 	if !x.Forall {
 		q = "exists"
+	}
+	// Trigger selection for the common shape "for all elements i of a slice":
+	// a universally quantified formula over one variable whose element
+	// positions are written at(off, i) is instantiated whenever a position
+	// at(off, t) is mentioned. (Left to the solver in every other case.)
+	if x.Forall && len(x.Vars) == 1 {
+		bv := n.bound[x.Vars[0]].S
+		pats := atTerms(body.S, bv)
+		if len(pats) > 0 && len(pats) <= 3 {
+			var ps strings.Builder
+			for _, p := range pats {
+				fmt.Fprintf(&ps, " :pattern (%s)", p)
+			}
+			return Term{fmt.Sprintf("(forall (%s) (! %s%s))", strings.Join(decls, " "), body.S, ps.String()), SBool}
+		}
 	}
 	return Term{fmt.Sprintf("(%s (%s) %s)", q, strings.Join(decls, " "), body.S), SBool}
 }
